@@ -41,6 +41,21 @@ Definition ex_tbl : list access :=
 Definition ex_tr : trace :=
   [Fork 0 1; Acq 0 7; Wr 0 5; Rel 0 7; Acq 1 7; Rd 1 5; Rel 1 7].
 
+(* the read-write variant: the writer holds the RWMutex in write mode, two readers are inside
+   overlapping read sections of it *)
+Definition rw_tbl : list access :=
+  [mkAccess "b.go:1" "writer" "T.f" KWrite ["T.rw"; "T.rw#R"];
+   mkAccess "b.go:2" "reader" "T.f" KRead ["T.rw#R"]]%string.
+Definition rw_tr : trace :=
+  [Fork 0 1; Fork 0 2; RAcq 1 7; RAcq 2 7; Rd 1 5; Rd 2 5; RRel 1 7; RRel 2 7; Acq 0 7; Wr 0 5; Rel 0 7;
+   RAcq 2 7; Rd 2 5; RRel 2 7].
+(* a WRITE made under a read-mode hold: the table check rejects it *)
+Definition rw_bad_tbl : list access :=
+  [mkAccess "b.go:1" "writer" "T.f" KWrite ["T.rw#R"];
+   mkAccess "b.go:2" "reader" "T.f" KRead ["T.rw#R"]]%string.
+Definition rw_bad_tr : trace :=
+  [Fork 0 1; RAcq 0 7; RAcq 1 7; Wr 0 5; Rd 1 5].
+
 Definition ex_field_of : loc -> string := fun _ => "T.f"%string.
 Definition ex_inst : loc -> string -> lock := fun _ _ => 7.
 
@@ -53,26 +68,160 @@ Lemma hypotheses_satisfiable :
   conflict (Wr 0 5) (Rd 1 5) 5 /\
   disciplined ex_tr 5 /\ hb ex_tr 2 5.
 Proof.
-  assert (Hwl : wf_locks ex_tr) by (eexists; reflexivity).
-  assert (Hwt : wf_threads ex_tr).
-  { intros j e Hj Hne.
-    do 7 (destruct j as [|j]; [cbn in Hj; inversion Hj; subst e; cbn in *; unfold main_thread in *;
-          first [congruence | (exists 0, 0; split; [lia|reflexivity])]|]).
-    destruct j; discriminate. }
-  assert (Hres : respects ex_field_of ex_inst ex_tbl ex_tr).
-  { intros i e x Hi Ha.
-    destruct i as [|[|[|[|[|[|[|i]]]]]]]; cbn in Hi; try (destruct i; discriminate);
-      inversion Hi; subst e; unfold accesses in Ha; cbn in Ha; try discriminate.
-    - exists (mkAccess "a.go:1" "writer" "T.f" KWrite ["T.mu"%string]). cbn.
-      repeat split; auto. intros g _. eexists; split; reflexivity.
-    - exists (mkAccess "a.go:2" "reader" "T.f" KRead ["T.mu"%string]). cbn.
-      repeat split; auto. intros g _. eexists; split; reflexivity. }
+  assert (Hchk : check_trace ex_field_of ex_inst ex_tbl ex_tr = true) by (vm_compute; reflexivity).
+  destruct (check_sound ex_field_of ex_inst ex_tbl ex_tr Hchk) as (Hwl & Hwt & Hres).
   assert (Hc : conflict (Wr 0 5) (Rd 1 5) 5).
   { unfold conflict, accesses. cbn. repeat split; auto. }
-  assert (Hok : discipline_ok ex_tbl = true) by reflexivity.
+  assert (Hok : discipline_ok ex_tbl = true) by (vm_compute; reflexivity).
   assert (Hd : disciplined ex_tr 5) by (eapply discipline_sound; eauto).
   repeat split; auto; try apply Hc.
   eapply (lockset_drf ex_tr Hwl Hwt 5 Hd 2 5); eauto. reflexivity. reflexivity.
+Qed.
+
+(* ---- read-write locks: overlapping read sections are in scope -------------------------------- *)
+
+(* rw_tr is well formed although threads 1 and 2 are inside read sections of lock 7 at the same
+   time (position 4); it respects a passing table; the write of thread 0 conflicts with both
+   earlier reads and with the later one, and the theorem orders all three pairs *)
+Lemma rw_hypotheses_satisfiable :
+  discipline_ok rw_tbl = true /\ wf_locks rw_tr /\ wf_threads rw_tr /\
+  respects ex_field_of ex_inst rw_tbl rw_tr /\
+  holds_r rw_tr 4 1 7 /\ holds_r rw_tr 4 2 7 /\
+  conflict (Rd 1 5) (Wr 0 5) 5 /\ conflict (Rd 2 5) (Wr 0 5) 5 /\ conflict (Wr 0 5) (Rd 2 5) 5 /\
+  hb rw_tr 4 9 /\ hb rw_tr 5 9 /\ hb rw_tr 9 12.
+Proof.
+  assert (Hchk : check_trace ex_field_of ex_inst rw_tbl rw_tr = true) by (vm_compute; reflexivity).
+  destruct (check_sound ex_field_of ex_inst rw_tbl rw_tr Hchk) as (Hwl & Hwt & Hres).
+  assert (Hok : discipline_ok rw_tbl = true) by (vm_compute; reflexivity).
+  assert (Hd : disciplined rw_tr 5) by (eapply discipline_sound; eauto).
+  assert (Hc1 : conflict (Rd 1 5) (Wr 0 5) 5) by (unfold conflict, accesses; cbn; repeat split; auto).
+  assert (Hc2 : conflict (Rd 2 5) (Wr 0 5) 5) by (unfold conflict, accesses; cbn; repeat split; auto).
+  assert (Hc3 : conflict (Wr 0 5) (Rd 2 5) 5) by (unfold conflict, accesses; cbn; repeat split; auto).
+  split; [exact Hok|]. split; [exact Hwl|]. split; [exact Hwt|]. split; [exact Hres|].
+  split; [eexists; split; [reflexivity | cbn; auto]|].
+  split; [eexists; split; [reflexivity | cbn; auto]|].
+  split; [exact Hc1|]. split; [exact Hc2|]. split; [exact Hc3|].
+  split; [|split].
+  - apply (lockset_drf rw_tr Hwl Hwt 5 Hd 4 9 (Rd 1 5) (Wr 0 5)); [lia | reflexivity | reflexivity | exact Hc1].
+  - apply (lockset_drf rw_tr Hwl Hwt 5 Hd 5 9 (Rd 2 5) (Wr 0 5)); [lia | reflexivity | reflexivity | exact Hc2].
+  - apply (lockset_drf rw_tr Hwl Hwt 5 Hd 9 12 (Wr 0 5) (Rd 2 5)); [lia | reflexivity | reflexivity | exact Hc3].
+Qed.
+
+(* a write made while only a READ section is open: the trace is well formed and every access is
+   an instance of a row of rw_bad_tbl holding what the row records, yet the write and the read of
+   the other thread are unordered - and the table check rejects rw_bad_tbl for exactly that row *)
+Lemma rw_bad_hb_source : forall i j, hb rw_bad_tr i j -> i < 3.
+Proof.
+  intros i j H. induction H as [i j e1 e2 Hij H1 H2 Ht|i j t t' l Hij H1 H2|i j t t' l Hij H1 H2|i j t t' l Hij H1 H2
+                               |i j t t' e Hij H1 H2 Ht|i j k _ IH1 _ IH2]; auto.
+  - destruct i as [|[|[|[|[|i]]]]]; try lia; cbn in H1; try (destruct i; discriminate).
+    + inversion H1; subst e1.
+      destruct j as [|[|[|[|[|j]]]]]; try lia; cbn in H2; try (destruct j; discriminate).
+      inversion H2; subst e2. cbn in Ht. discriminate.
+    + inversion H1; subst e1.
+      destruct j as [|[|[|[|[|j]]]]]; try lia; cbn in H2; destruct j; discriminate.
+  - destruct i as [|[|[|[|[|i]]]]]; cbn in H1; try discriminate; destruct i; discriminate.
+  - destruct i as [|[|[|[|[|i]]]]]; cbn in H1; try discriminate; destruct i; discriminate.
+  - destruct i as [|[|[|[|[|i]]]]]; cbn in H1; try discriminate; destruct i; discriminate.
+  - destruct i as [|[|[|[|[|i]]]]]; cbn in H1; try discriminate; try lia; destruct i; discriminate.
+Qed.
+
+Lemma write_under_read_lock_rejected :
+  discipline_ok rw_bad_tbl = false /\ failing_fields rw_bad_tbl = ["T.f"%string] /\
+  wf_locks rw_bad_tr /\ wf_threads rw_bad_tr /\ respects ex_field_of ex_inst rw_bad_tbl rw_bad_tr /\
+  conflict (Wr 0 5) (Rd 1 5) 5 /\ ~ hb rw_bad_tr 3 4 /\ ~ disciplined rw_bad_tr 5.
+Proof.
+  assert (Hchk : check_trace ex_field_of ex_inst rw_bad_tbl rw_bad_tr = true) by (vm_compute; reflexivity).
+  destruct (check_sound ex_field_of ex_inst rw_bad_tbl rw_bad_tr Hchk) as (Hwl & Hwt & Hres).
+  assert (Hc : conflict (Wr 0 5) (Rd 1 5) 5) by (unfold conflict, accesses; cbn; repeat split; auto).
+  assert (Hn : ~ hb rw_bad_tr 3 4) by (intros H; apply rw_bad_hb_source in H; lia).
+  split; [vm_compute; reflexivity|]. split; [vm_compute; reflexivity|].
+  repeat split; auto; try apply Hc.
+  intros Hd. apply Hn. apply (lockset_drf rw_bad_tr Hwl Hwt 5 Hd 3 4 (Wr 0 5) (Rd 1 5)); auto.
+Qed.
+
+(* ---- the generated table: its hypothesis is satisfiable -------------------------------------- *)
+
+(* the locks a trace enters, the locations it touches *)
+Fixpoint acquired (tr : trace) : list lock :=
+  match tr with
+  | [] => []
+  | Acq _ l :: r | RAcq _ l :: r => l :: acquired r
+  | _ :: r => acquired r
+  end.
+Fixpoint touched (tr : trace) : list loc :=
+  match tr with
+  | [] => []
+  | e :: r => match acc_loc e with Some x => x :: touched r | None => touched r end
+  end.
+
+(* some read section is entered while another thread is inside a read section of the same lock *)
+Fixpoint overlapb (tr : trace) (s : lockst) : bool :=
+  match tr with
+  | [] => false
+  | e :: r =>
+      match step s e with
+      | None => false
+      | Some s' =>
+          match e with
+          | RAcq t l => existsb (fun t' => negb (Nat.eqb t' t)) (rds (s l))
+          | _ => false
+          end || overlapb r s'
+      end
+  end.
+
+Lemma overlapb_sound_gen : forall q p s,
+  run p st0 = Some s -> overlapb q s = true ->
+  exists i t1 t2 g, t1 <> t2 /\ holds_r (p ++ q)%list i t1 g /\ holds_r (p ++ q)%list i t2 g.
+Proof.
+  induction q as [|e q IH]; intros p s Hrun H; cbn in H; [discriminate|].
+  destruct (step s e) as [s1|] eqn:Hst; [|discriminate].
+  assert (Hrun1 : run (p ++ [e])%list st0 = Some s1) by (rewrite run_app, Hrun; cbn; now rewrite Hst).
+  apply Bool.orb_true_iff in H. destruct H as [H|H].
+  - destruct e as [t l|t l|t l|t l|t x|t x|t x|t t']; try discriminate.
+    apply existsb_exists in H. destruct H as (t' & Hin & Hne).
+    apply Bool.negb_true_iff, Nat.eqb_neq in Hne.
+    cbn in Hst. destruct (wr (s l)); [discriminate|]. inversion Hst; subst s1.
+    exists (length (p ++ [RAcq t l])%list), t, t', l. split; [congruence|].
+    replace (p ++ RAcq t l :: q)%list with ((p ++ [RAcq t l]) ++ q)%list by (now rewrite <- app_assoc).
+    split; eexists; (split; [rewrite firstn_prefix; exact Hrun1|]); rewrite upd_same; cbn; auto.
+  - replace (p ++ e :: q)%list with ((p ++ [e]) ++ q)%list by (now rewrite <- app_assoc). eapply IH; eauto.
+Qed.
+
+Lemma overlapb_sound : forall tr, overlapb tr st0 = true ->
+  exists i t1 t2 g, t1 <> t2 /\ holds_r tr i t1 g /\ holds_r tr i t2 g.
+Proof. intros tr H. exact (overlapb_sound_gen tr [] st0 eq_refl H). Qed.
+
+Lemma gen_ex_checked : check_trace gen_ex_field_of gen_ex_inst access_table gen_ex_tr = true.
+Proof. vm_compute. reflexivity. Qed.
+
+(* a trace over the real field names, built from the table's own rows (writer row and reader row
+   of eight fields guarded by different mutexes, two readers inside one read section of the
+   RWMutex), respects the generated table: the premise of C20_tracked_fields_race_free is
+   satisfiable for it *)
+Lemma generated_table_respected :
+  wf_locks gen_ex_tr /\ wf_threads gen_ex_tr /\
+  respects gen_ex_field_of gen_ex_inst access_table gen_ex_tr /\
+  3 <= length (nodup Nat.eq_dec (acquired gen_ex_tr)) /\
+  3 <= length (nodup string_dec (map gen_ex_field_of (touched gen_ex_tr))) /\
+  (forall x, race_free_on gen_ex_tr x) /\
+  (exists i t1 t2 g, t1 <> t2 /\ holds_r gen_ex_tr i t1 g /\ holds_r gen_ex_tr i t2 g).
+Proof.
+  destruct (check_sound _ _ _ _ gen_ex_checked) as (Hwl & Hwt & Hres).
+  split; [exact Hwl|]. split; [exact Hwt|]. split; [exact Hres|].
+  split; [vm_compute; lia|]. split; [vm_compute; lia|]. split.
+  - intros x. exact (tracked_fields_race_free gen_ex_field_of gen_ex_inst gen_ex_tr Hwl Hwt Hres x).
+  - apply overlapb_sound. vm_compute. reflexivity.
+Qed.
+
+(* what the recorded-trace leg of the check establishes for each trace it accepts *)
+Lemma checked_trace_race_free :
+  forall (field_of : loc -> string) (inst : loc -> string -> lock) tr,
+  check_trace field_of inst access_table tr = true ->
+  wf_locks tr /\ wf_threads tr /\ respects field_of inst access_table tr /\ forall x, race_free_on tr x.
+Proof.
+  intros field_of inst tr H. destruct (check_sound _ _ _ _ H) as (Hwl & Hwt & Hres).
+  repeat split; auto. intros x. exact (tracked_fields_race_free field_of inst tr Hwl Hwt Hres x).
 Qed.
 
 (* ---- and the conclusion is not trivially true --------------------------------------------- *)
@@ -82,10 +231,13 @@ Definition racy_tr : trace := [Fork 0 1; Wr 0 5; Wr 1 5].
 
 Lemma racy_hb_shape : forall i j, hb racy_tr i j -> i = 0 /\ (j = 1 \/ j = 2).
 Proof.
-  intros i j H. induction H as [i j e1 e2 Hij H1 H2 Ht|i j t t' l Hij H1 H2|i j t t' e Hij H1 H2 Ht|i j k _ IH1 _ IH2].
+  intros i j H. induction H as [i j e1 e2 Hij H1 H2 Ht|i j t t' l Hij H1 H2|i j t t' l Hij H1 H2|i j t t' l Hij H1 H2
+                               |i j t t' e Hij H1 H2 Ht|i j k _ IH1 _ IH2].
   - destruct i as [|[|[|i]]]; destruct j as [|[|[|j]]]; cbn in *; try lia; try discriminate;
       inversion H1; inversion H2; subst; cbn in Ht; try discriminate; auto.
     all: try (destruct i; discriminate); try (destruct j; discriminate).
+  - destruct i as [|[|[|i]]]; cbn in H1; try discriminate. destruct i; discriminate.
+  - destruct i as [|[|[|i]]]; cbn in H1; try discriminate. destruct i; discriminate.
   - destruct i as [|[|[|i]]]; cbn in H1; try discriminate. destruct i; discriminate.
   - destruct i as [|[|[|i]]]; cbn in H1; try discriminate; [|destruct i; discriminate].
     inversion H1; subst.
